@@ -5,6 +5,7 @@ import TxdbusModel.Msg.Message
 import TxdbusModel.Msg.SpecMsg
 import TxdbusModel.Wire.Code
 import TxdbusModel.Msg.WireCodec
+import TxdbusModel.Msg.General
 import TxdbusModel.Proofs.Wire.Conf
 import TxdbusModel.Proofs.Wire.CodePrim
 /-!
@@ -42,6 +43,21 @@ Driver for property C03.  One operation per line (tokens separated by single spa
   spec <l|B> <type> <flags> <serial> <n> (<code> <typecode> <value>)*n <bodyhex>      Spec.encodeMsg
       value = decimal unsigned integer for a fixed-size type, s<strhex> for s/o/g
       -> `<byteshex>`
+
+  buildg <the arguments of build>      the same constructor call through `constructG` (Msg/General.lean): `_marshal` with the header
+      encoded by the GENERAL code model `Code.marshal` on `_headerFormat` (extension 2026-09-30)
+      -> as build, without `gen=`
+  parseg <byteshex> <fds>      `parseMessageG`: parseMessage with the header decoded by the GENERAL code model `Code.unmarshal`
+      (no fragment restriction: header fields whose variant holds a container are decoded like any other)
+      -> as parse, without `gen=` / `via=`
+  forwardg <byteshex> <fds> <sender>      the bus's forwarding step through the general model: `parseMessageG`, `forwardG`
+      (`msg.sender = sender; msg.endian = raw[0]; msg._marshal(False, rawBody=msg.rawBody)`)
+      -> `ok raw=<hex> cert=<c> thm=<t>` | `err kind=<ExceptionName> cert=<c>`
+      cert: `1` the parsed object satisfies the hypotheses of `forward_parse` (Properties/C03.lean; `fwdOKB`: attribute values
+      of the specification's types, every non-None attribute but `sender` in the table of its class, no NUL in the signature;
+      first byte `l` or `B`), else `0`.  thm (with cert=1 and a successful call): the theorem's conclusion re-checked on the
+      evaluated model - parsing the re-marshalled bytes gives the same class, serial, flags, otherFlags, body bytes and every
+      attribute except `sender` = the given name: `1` | `0`; `-` otherwise.
 
 attr = N | s<strhex> | i<dec> | b0 | b1 | d<16 hex> | ?<kind>
 
@@ -121,9 +137,6 @@ def wfBit (raw : Bytes) : String :=
     | some _ => "1"
     | none => "0"
 
-/-- `self.headers` as the Python value handed to `marshal.marshal`: a list of `[code, value]` lists. -/
-def headersVal (hs : List (PyVal × PyVal)) : PyVal := .list (hs.map fun h => .list [h.1, h.2])
-
 /-- Cross-check on the marshalling side (see the module comment). -/
 def genMarshalBit (m : Msg PreBody) : String :=
   let T := Gen.Message.tables
@@ -166,7 +179,10 @@ def genUnmarshalBit (raw : Bytes) (fds : Option (List PyVal)) : String :=
     | .error e1, .error e2 => if e1 == e2 then "1" else "0"
     | _, _ => "0"
 
-def buildStep (toks : List String) : String :=
+/-- Step budget of the general header codec in `buildg` / `parseg` / `forwardg` (4 + the nesting depth of a field value). -/
+def gFuel : Nat := 64
+
+def buildStepWith (general : Bool) (toks : List String) : String :=
   match toks with
   | [cls, nxt, mx, er, as, path, member, iface, errname, rserial, dest, sender, sg, oob, pre] =>
     match nxt.toNat?, mx.toNat?, bool? er, bool? as, optStr? path, optStr? member, optStr? iface with
@@ -193,14 +209,15 @@ def buildStep (toks : List String) : String :=
         match call with
         | none => "bad-input"
         | some c =>
-          let r := construct T preCodec na mx st c
+          let r := if general then constructG T preCodec gFuel na mx st c else construct T preCodec na mx st c
           match r.2 with
           | .error e => "err kind=" ++ pyErrName e ++ " next=" ++ toString r.1.nextSerial
           | .ok m =>
             "ok serial=" ++ toString m.serial ++ " next=" ++ toString r.1.nextSerial ++
             " raw=" ++ bytesToHex m.raw ++ " hdr=" ++ bytesToHex m.rawHeader ++
             " pad=" ++ bytesToHex m.rawPadding ++ " body=" ++ bytesToHex m.rawBody ++
-            " ufds=" ++ attrStr (m.attrs .unixFds) ++ " wf=" ++ wfBit m.raw ++ " gen=" ++ genMarshalBit m
+            " ufds=" ++ attrStr (m.attrs .unixFds) ++ " wf=" ++ wfBit m.raw ++
+            (if general then "" else " gen=" ++ genMarshalBit m)
       | _, _, _, _, _, _, _ => "bad-input"
     | _, _, _, _, _, _, _ => "bad-input"
   | _ => "bad-input"
@@ -374,22 +391,66 @@ def parseBoth (raw : Bytes) (fds : Option (List PyVal)) : Except PyErr (Msg PreB
       | .ok h => (parseAfterHeader T preCodec raw le fds h, " via=general")
   | r => (r, "")
 
+def fmtParsed (res : Except PyErr (Msg PreBody)) : String :=
+  let T := Gen.Message.tables
+  match res with
+  | .error e => "err kind=" ++ pyErrName e
+  | .ok m =>
+    "ok type=" ++ toString (T.messageType m.cls) ++ " serial=" ++ toString m.serial ++
+    " er=" ++ tf m.expectReply ++ " as=" ++ tf m.autoStart ++ " of=" ++ toString m.otherFlags ++
+    String.join (attrNames.map fun (a, n) => " " ++ n ++ "=" ++ attrStr (m.attrs a)) ++
+    " hdr=" ++ toString m.rawHeader.length ++ " pad=" ++ bytesToHex m.rawPadding ++
+    " body=" ++ bytesToHex m.rawBody
+
 def parseStep (toks : List String) : String :=
   match toks with
   | [h, f] =>
     match hexToBytes? h, fds? f with
     | some raw, some fds =>
-      let T := Gen.Message.tables
       let (res, via) := parseBoth raw fds
-      match res with
-      | .error e => "err kind=" ++ pyErrName e ++ " gen=" ++ genUnmarshalBit raw fds ++ via
-      | .ok m =>
-        "ok type=" ++ toString (T.messageType m.cls) ++ " serial=" ++ toString m.serial ++
-        " er=" ++ tf m.expectReply ++ " as=" ++ tf m.autoStart ++ " of=" ++ toString m.otherFlags ++
-        String.join (attrNames.map fun (a, n) => " " ++ n ++ "=" ++ attrStr (m.attrs a)) ++
-        " hdr=" ++ toString m.rawHeader.length ++ " pad=" ++ bytesToHex m.rawPadding ++
-        " body=" ++ bytesToHex m.rawBody ++ " gen=" ++ genUnmarshalBit raw fds ++ via
+      fmtParsed res ++ " gen=" ++ genUnmarshalBit raw fds ++ via
     | _, _ => "bad-input"
+  | _ => "bad-input"
+
+def parsegStep (toks : List String) : String :=
+  match toks with
+  | [h, f] =>
+    match hexToBytes? h, fds? f with
+    | some raw, some fds => fmtParsed (parseMessageG Gen.Message.tables preCodec gFuel raw fds)
+    | _, _ => "bad-input"
+  | _ => "bad-input"
+
+/-- The conclusion of `forward_parse` on evaluated objects: `m3` (parsed from the re-marshalled bytes) against `m` (the
+object that was forwarded with `sender`). -/
+def fwdViewOK (m m3 : Msg PreBody) (sender : List Char) : Bool :=
+  m3.cls == m.cls && m3.serial == m.serial && m3.expectReply == m.expectReply && m3.autoStart == m.autoStart &&
+  m3.otherFlags == m.otherFlags / 4 * 4 && m3.rawBody == m.rawBody &&
+  attrNames.all fun (a, _) =>
+    attrStr (m3.attrs a) == (if a == Attr.sender then attrStr (.str .plain sender) else attrStr (plain (m.attrs a)))
+
+def forwardgStep (toks : List String) : String :=
+  match toks with
+  | [h, f, snd] =>
+    match hexToBytes? h, fds? f, optStr? snd with
+    | some raw, some fds, some (some sender) =>
+      let T := Gen.Message.tables
+      match raw, parseMessageG T preCodec gFuel raw fds with
+      | _, .error e => "err kind=" ++ pyErrName e ++ " cert=-"
+      | [], _ => "err kind=IndexError cert=-"
+      | b0 :: _, .ok m =>
+        let cert := fwdOKB T m && (b0 == 108 || b0 == 66)
+        let certS := if cert then "1" else "0"
+        match forwardG T gFuel T.maxMsgLen m b0.toNat sender with
+        | .error e => "err kind=" ++ pyErrName e ++ " cert=" ++ certS
+        | .ok m2 =>
+          let thm :=
+            if cert then
+              match parseMessageG T preCodec gFuel m2.raw fds with
+              | .ok m3 => if fwdViewOK m m3 sender then "1" else "0"
+              | .error _ => "0"
+            else "-"
+          "ok raw=" ++ bytesToHex m2.raw ++ " cert=" ++ certS ++ " thm=" ++ thm
+    | _, _, _ => "bad-input"
   | _ => "bad-input"
 
 def remarshalStep (toks : List String) : String :=
@@ -446,7 +507,10 @@ def specStep (toks : List String) : String :=
 
 def step (line : String) : String :=
   match words line with
-  | "build" :: toks => buildStep toks
+  | "build" :: toks => buildStepWith false toks
+  | "buildg" :: toks => buildStepWith true toks
+  | "parseg" :: toks => parsegStep toks
+  | "forwardg" :: toks => forwardgStep toks
   | "buildw" :: toks => buildwStep toks
   | "parse" :: toks => parseStep toks
   | "remarshal" :: toks => remarshalStep toks
